@@ -19,6 +19,8 @@
 #include <arpa/inet.h>
 #include <execinfo.h>
 #include <setjmp.h>
+#include <locale>
+#include <algorithm>
 #include <netinet/in.h>
 #include <netinet/tcp.h>
 #include <sys/epoll.h>
@@ -36,10 +38,13 @@ using namespace tbox; using namespace tbox::event; using namespace tbox::http; u
 extern "C" int epoll_wait(int epfd, struct epoll_event *ev, int maxev, int) { return (int)syscall(SYS_epoll_wait, epfd, ev, maxev, 0); }
 extern "C" int select(int nfds, fd_set *r, fd_set *w, fd_set *e, struct timeval *) { struct timeval z = {0, 0}; return (int)syscall(SYS_select, nfds, r, w, e, &z); }
 
-enum { REQ, PASS, RAW, RECONN, HCL };             // RAW: a malformed request (crash/hang freedom only; ends the judged part of that connection)
+enum { REQ, PASS, RAW, RECONN, HCL, RESTART, ENDC };             // RAW: a malformed request (crash/hang freedom only; ends the judged part of that connection)
                                              // RECONN: the client closes its side of the connection in slot c (whatever is outstanding) and opens a new one
                                              // HCL: an otherwise valid request whose Content-Length value is hostile (negative, signed, huge, blank, ...): whatever the server makes of it
                                              //      (reject, wait for a body, hand it to the handler), the loop pass must end and the handler must not see it twice; ends the judged part
+                                             // RESTART: stop()+start() (kind 0) or cleanup()+initialize()+use()+start() (kind 1) with connections open and handlers outstanding; every client
+                                             //      sees its connection end and connects again; the old contexts complete later
+                                             // ENDC: terminal: cleanup() with connections open and handlers outstanding, the contexts are released only afterwards
 // request kinds = HTTP version x Connection header; `closing` is the reference model's reading of "asked for the connection to be closed"
 enum { KEEP, CLOSE, HTTP10, KEEP11H, KEEP10H, KEEP10TE, CLOSE11TE, NKIND };
 struct KindDef { const char *name, *ver, *conn; bool closing; };
@@ -49,8 +54,11 @@ static const KindDef kKindDef[NKIND] = {
 enum { ALONE, GLUED, CUT, CUTM };             // own segment | same segment as the next request | cut into two segments in the middle (a pass in between) | cut inside the method token
 enum { BAD_CONTENT_LENGTH, BAD_METHOD };
 // conn = client slot (0|1); nd = passes by which the first callback defers next() (two-callback lane); big = the handler's response does not fit the socket buffer
-struct Op { int k, kind, delay, seg, conn, nd, big; };
-static Op mkreq(int kind, int d, int seg, int conn = 0, int nd = 0, int big = 0) { return Op{REQ, kind, d, seg, conn, nd, big}; }
+// rel = on entry the handler first completes every outstanding context (of any connection), then answers; cclose = the client closes right after writing the request (no pass
+// in between: request and end-of-stream arrive together) and connects again; rv = response variant (0: 200 + body | 1: + Content-Type and X-Tag headers | 2: X-Tag, empty body |
+// 3: the handler leaves the response untouched = 404, no body)
+struct Op { int k, kind, delay, seg, conn, nd, big, rel, cclose, rv; };
+static Op mkreq(int kind, int d, int seg, int conn = 0, int nd = 0, int big = 0, int rel = 0, int cclose = 0, int rv = 0) { return Op{REQ, kind, d, seg, conn, nd, big, rel, cclose, rv}; }
 static const char *kSeg[] = {"alone", "glued", "cut", "cutm"}, *kRaw[] = {"bad-content-length", "bad-method"};
 static const char *kRawText[] = {"POST /x HTTP/1.1\r\nContent-Length: abc\r\n\r\n", "BREW /x HTTP/1.1\r\nContent-Length: 0\r\n\r\n"};
 
@@ -60,6 +68,7 @@ static std::string g_transport = "unix", g_engine = "epoll", g_lane = "";
 static int g_nclients = 1;              // connections open from the start (lane multi: 2)
 static bool g_two_callbacks = false;    // lane mw: use(callback) that defers next() + use(Middleware*) that answers
 static bool g_small_sndbuf = false;     // lane big: the server side of the connection has a minimal SO_SNDBUF, so a big response is written in several partial writes
+static bool g_grouping_locale = false;  // C12_GROUPING_LOCALE=1 (default off, see the note at main()): the global C++ locale groups digits, as en_US.UTF-8 does
 static bool g_ctxlog = false;           // setContextLogEnable(true): Request/Respond::toString() evaluated for the log line
 static const size_t kBigPad = 12000;
 static void set_lane(const std::string &l) {
@@ -67,6 +76,7 @@ static void set_lane(const std::string &l) {
   if (l == "multi") { g_nclients = 2; g_ctxlog = true; }
   if (l == "mw") { g_two_callbacks = true; g_ctxlog = true; }
   if (l == "big") { g_small_sndbuf = true; g_ctxlog = true; }
+  if (l == "life" || l == "resp") g_ctxlog = true;
 }
 
 // The implementation's bookkeeping is part of the canonical state only (never of the oracle). Private fields of the http server classes are read by
@@ -80,7 +90,26 @@ OPT_FIELD(f_req_index, p->req_index, -9)
 OPT_FIELD(f_res_index, p->res_index, -9)
 OPT_FIELD(f_close_index, (p->close_index == std::numeric_limits<int>::max() ? -1 : p->close_index), -9)
 OPT_FIELD(f_parked, p->res_buff.size(), -9)
-OPT_FIELD(f_content_length, p->content_length_, -9)
+OPT_FIELD(f_content_length, p->req_parser.content_length_, -9)
+OPT_FIELD(f_parser_state, (int)p->req_parser.state(), -9)
+OPT_FIELD(f_bfd_state, (int)p->state_, -9)
+OPT_FIELD(f_bfd_rb, p->recv_buff_.readableSize(), -9)
+OPT_FIELD(f_bfd_sb, (p->send_buff_.readableSize() > 0), -9)
+OPT_FIELD(f_bfd_wev, (p->sp_write_event_ ? (int)p->sp_write_event_->isEnabled() : -1), -9)
+OPT_FIELD(f_next_queue, p->run_next_func_queue_.size(), -9)
+// the private nested type Impl::Connection, found through the type of Impl::conns_'s elements (no name of it is spelled out here)
+template <class T> static auto parked_keys(T *p, int) -> decltype(p->res_buff.begin()->first, std::string());
+template <class T> static std::string parked_keys(T *, long);
+template <class T> static std::string raw_scalars(T *obj);
+template <class I> static auto conn_fields(I *im, void *ctx, int) -> decltype((void)im->conns_.begin(), std::string()) {
+  typedef typename std::decay<decltype(*im->conns_.begin())>::type ConnPtr; ConnPtr cn = static_cast<ConnPtr>(ctx);
+  char b[200]; bool idle = f_parser_state(cn, 0) == (long)RequestParser::State::kInit;
+  snprintf(b, sizeof b, "req=%ld res=%ld close=%ld ps=%ld cl=%ld parked=", f_req_index(cn, 0), f_res_index(cn, 0), f_close_index(cn, 0), f_parser_state(cn, 0), idle ? 0L : f_content_length(cn, 0));
+  std::string c = b; c += parked_keys(cn, 0);
+  if (g_field_missing) c += " raw=" + raw_scalars(cn);
+  return c + " ";
+}
+template <class I> static std::string conn_fields(I *, void *, long) { g_field_missing = true; return "conn=? "; }
 OPT_FIELD(f_conns, p->conns_.size(), -9)
 template <class T> static auto parked_keys(T *p, int) -> decltype(p->res_buff.begin()->first, std::string()) { std::string s; for (auto &kv : p->res_buff) s += std::to_string(kv.first) + ","; return s; }
 template <class T> static std::string parked_keys(T *, long) { g_field_missing = true; return "?"; }
@@ -97,6 +126,9 @@ template <class T> static std::string raw_scalars(T *obj) {     // small integer
 static const char *kHcl[] = {"-@H", "-@H-1", "-@H+1", "-@H+5", "-2", "-5", "-0", "+5", "05", "  5", "5 ", "", "-", "2147483647", "2147483648", "-2147483648", "-2147483649", "4294967295", "4294967296", "4294967301",
                              "-4294967291", "9223372036854775807", "9223372036854775808", "-9223372036854775808", "18446744073709551615", "18446744073709551616", "18446744073709551621", "-18446744073709551611", "99999999999999999999999999"};
 static const int kNHcl = sizeof kHcl / sizeof *kHcl;
+// the reference model's reading of a value: optional blanks around 1*DIGIT that spell the length of the body actually sent (5) = an ordinary well-formed request
+static bool hcl_wellformed(int v) { std::string s = kHcl[v]; while (!s.empty() && s[0] == ' ') s.erase(0, 1); while (!s.empty() && s.back() == ' ') s.pop_back();
+  if (s.empty() || s.find_first_not_of("0123456789") != std::string::npos) return false; while (s.size() > 1 && s[0] == '0') s.erase(0, 1); return s == "5"; }
 static std::string req_body(int i);
 static std::string hcl_text(int i, int v) {
   std::string pre = "POST /r" + std::to_string(i) + " HTTP/1.1\r\nContent-Length: ", val = kHcl[v];
@@ -134,6 +166,8 @@ struct World {
   std::vector<Client> cl; int cur[2] = {-1, -1}; int reconns = 0;      // every connection ever opened; the live one per client slot
   std::vector<int> hcl;                       // per request: index of its hostile Content-Length value, -1 = a valid request
   int handler_calls_in_pass = 0;              // watchdog: a pass in which the handler is entered again and again never ends
+  std::vector<int> rels, rvs; int restarts = 0; bool ended = false;
+  network::SockAddr addr;
   std::vector<int> segs, kinds, delays, nds, bigs, owner;             // per request issued by a client (index = request number); owner = index into cl
   std::vector<bool> sent;                     // the client has issued write() for all of its bytes (a refused write is the server's doing)
   std::vector<int> delivered;                 // request numbers in the order the (first) handler saw them
@@ -160,15 +194,7 @@ struct World {
   void shrink_server_sndbuf() {
     srv->impl_->tcp_server_.d_->conns.foreach([&](network::TcpConnection *c) { if (c->sp_buffered_fd_) { int v = 1024; setsockopt(c->sp_buffered_fd_->fd().get(), SOL_SOCKET, SO_SNDBUF, &v, sizeof v); } });
   }
-  bool setup() {
-    signal(SIGPIPE, SIG_IGN);
-    loop = Loop::New(g_engine); if (!loop) return false;
-    srv = new Server(loop);
-    network::SockAddr addr;
-    if (g_transport == "unix") {
-      const char *dir = getenv("C12_SOCK_DIR"); sock_path = std::string(dir ? dir : "/tmp") + "/c12-" + std::to_string(getpid()) + ".sock";
-      addr = network::SockAddr(network::DomainSockPath(sock_path));
-    } else addr = network::SockAddr::FromString("127.0.0.1:0");
+  bool init_server() {                         // initialize + use + start, as an application does (also after a cleanup())
     if (!srv->initialize(addr, 4)) return false;
     if (g_ctxlog) srv->setContextLogEnable(true);
     final_mw.w = this;
@@ -179,6 +205,17 @@ struct World {
       int lfd = srv->impl_->tcp_server_.d_->sp_acceptor->sock_fd_.get();
       tcp_sl = sizeof tcp_sa; if (getsockname(lfd, (struct sockaddr *)&tcp_sa, &tcp_sl) != 0) return false;
     }
+    return true;
+  }
+  bool setup() {
+    signal(SIGPIPE, SIG_IGN);
+    loop = Loop::New(g_engine); if (!loop) return false;
+    srv = new Server(loop);
+    if (g_transport == "unix") {
+      const char *dir = getenv("C12_SOCK_DIR"); sock_path = std::string(dir ? dir : "/tmp") + "/c12-" + std::to_string(getpid()) + ".sock";
+      addr = network::SockAddr(network::DomainSockPath(sock_path));
+    } else addr = network::SockAddr::FromString("127.0.0.1:0");
+    if (!init_server()) return false;
     for (int s = 0; s < g_nclients; s++) {
       if (!connect_client(s)) return false;
       for (int i = 0; i < 5 && tcp_conns() < (size_t)s + 1; i++) raw_pass();        // accepted one by one: connection s is in cabinet slot s
@@ -195,6 +232,12 @@ struct World {
     delete loop; loop = nullptr;
   }
 
+  std::string expect_response(int i) const {
+    if (rvs[i] == 3) return "HTTP/1.1 404 Not Found\r\nContent-Length: 0\r\n\r\n";
+    std::string body = rvs[i] == 2 ? std::string() : resp_body(i, bigs[i]);
+    return std::string("HTTP/1.1 200 OK\r\n") + (rvs[i] == 1 ? "Content-Type: text/plain\r\n" : "") + (rvs[i] == 1 || rvs[i] == 2 ? "X-Tag: " + rn(i) + "\r\n" : std::string())
+           + "Content-Length: " + std::to_string(body.size()) + "\r\n\r\n" + body;
+  }
   static std::string resp_body(int i, bool big) { return "r" + std::to_string(i) + (big ? std::string(kBigPad, 'x') : std::string()); }
 
   // first callback of the chain = "the request is handed to a handler": identify it, compare it with what the client sent
@@ -207,7 +250,7 @@ struct World {
       if (viol.empty()) viol = "server-loop-pass-never-ends-handler-invoked-again-and-again " + rn(i);
       else viol += " (and the loop pass never ends: handler entered >40 times in one pass)";
       longjmp(g_bail, 1); }
-    if (hcl[i] >= 0) ;                        // hostile length: which bytes end up as the body is the parser's business
+    if (hcl[i] >= 0 && !hcl_wellformed(hcl[i])) ;   // hostile length: which bytes end up as the body is the parser's business
     else if (q.method != Method::kPost || q.body != req_body(i) || q.http_ver != (!strcmp(kd.ver, "HTTP/1.0") ? HttpVer::k1_0 : HttpVer::k1_1)
         || (kd.conn ? (hc == q.headers.end() || hc->second != kd.conn) : hc != q.headers.end())) { viol = "request-handed-to-handler-differs-from-request-sent r" + std::to_string(i); return -1; }
     for (int d : delivered) if (d == i) { viol = "request-handed-to-handler-twice r" + std::to_string(i); return -1; }
@@ -225,7 +268,13 @@ struct World {
     if (i < 0 || i >= (int)kinds.size() || q.url.path.compare(0, 2, "/r") != 0) { viol = "handler-got-a-request-the-client-never-sent path=" + q.url.path; return; }
     for (int d : finals) if (d == i) { viol = "request-handed-to-handler-twice r" + std::to_string(i) + " (answering handler)"; return; }
     finals.push_back(i);
-    ctx->res().status_code = StatusCode::k200_OK; ctx->res().body = resp_body(i, bigs[i]);
+    if (rels[i]) {      // first complete everything outstanding - of this and of any other connection - from inside this request's handler (nested in onTcpReceived)
+      std::vector<Pending> ps; ps.swap(pending); completed += (int)ps.size(); ps.clear(); }
+    Respond &r = ctx->res();
+    if (rvs[i] != 3) r.status_code = StatusCode::k200_OK;
+    if (rvs[i] == 1) r.headers["Content-Type"] = "text/plain";
+    if (rvs[i] == 1 || rvs[i] == 2) r.headers["X-Tag"] = rn(i);
+    if (rvs[i] == 0 || rvs[i] == 1) r.body = resp_body(i, bigs[i]);
     if (delays[i] > 0) pending.push_back(Pending{i, pass_no + delays[i], ctx});      // completes `delay` passes later
     else completed++;                                                                  // completes inside the request callback
   }
@@ -280,16 +329,27 @@ struct World {
       size_t he = k.rx.find("\r\n\r\n", pos); if (he == std::string::npos) break;
       std::string head = k.rx.substr(pos, he - pos);
       if (head.compare(0, 9, "HTTP/1.1 ") != 0) { viol = "client-stream-malformed-response-head"; return; }
-      size_t cle = head.find("Content-Length: "); if (cle == std::string::npos) { viol = "client-stream-response-without-content-length"; return; }
-      size_t n = (size_t)atoi(head.c_str() + cle + 16); if (he + 4 + n > k.rx.size()) break;
-      std::string body = k.rx.substr(he + 4, n); pos = he + 4 + n;
-      int t = (body.size() >= 2 && body[0] == 'r') ? atoi(body.c_str() + 1) : -1;
-      if (head.compare(9, 6, "200 OK") != 0 || t < 0 || t >= (int)kinds.size() || body != resp_body(t, bigs[t])) { viol = "response-is-not-the-handlers-response status/body=" + head.substr(9, 12) + "/" + body.substr(0, 24) + (body.size() > 24 ? "...(" + std::to_string(body.size()) + " bytes)" : ""); return; }
-      if (owner[t] != ci) { viol = "response-written-to-another-connection " + rn(t) + "-of-connection-" + std::to_string(owner[t]) + "-received-on-connection-" + std::to_string(ci); return; }
-      for (int x : k.tags) if (x == t) { viol = "response-written-twice " + rn(t); return; }
-      int tp = -1; for (size_t p = 0; p < k.reqs.size(); p++) if (k.reqs[p] == t) tp = (int)p;
-      if (c >= 0 && tp > c) { viol = "requests-after-connection-close-are-answered " + rn(t) + "-answered-after-closing-" + rn(k.reqs[c]); return; }
-      if (tp != (int)k.tags.size()) { viol = "responses-out-of-request-order got-" + rn(t) + "-at-position-" + std::to_string(k.tags.size()); return; }
+      size_t cle = head.find("\r\nContent-Length: "); if (cle == std::string::npos) { viol = "client-stream-response-without-content-length"; return; }
+      size_t ve = head.find("\r\n", cle + 18); std::string lenv = head.substr(cle + 18, ve == std::string::npos ? std::string::npos : ve - cle - 18);
+      if (lenv.empty() || lenv.size() > 9 || lenv.find_first_not_of("0123456789") != std::string::npos) { viol = "client-stream-response-content-length-is-not-a-decimal-number value=" + lenv; return; }
+      size_t n = (size_t)atoi(lenv.c_str()); if (he + 4 + n > k.rx.size()) break;
+      std::string whole = k.rx.substr(pos, he + 4 + n - pos), body = k.rx.substr(he + 4, n); pos = he + 4 + n;
+      // the whole response (status line, every header, blank line, body) is compared with a string the model builds itself. Position decides which request it has
+      // to answer (an untouched 404 carries no tag); only the diagnosis of a mismatch looks for the request it would have been right for
+      size_t p = k.tags.size(); int t = p < k.reqs.size() ? k.reqs[p] : -1;
+      if (t < 0 || whole != expect_response(t)) {
+        int j = -1;
+        for (int x : k.reqs) if (j < 0 && whole == expect_response(x) && std::find(k.tags.begin(), k.tags.end(), x) == k.tags.end()) j = x;      // a later request of this connection
+        for (int x : k.reqs) if (j < 0 && whole == expect_response(x)) j = x;                                                                    // one already answered
+        for (int x = 0; x < (int)kinds.size() && j < 0; x++) if (whole == expect_response(x)) j = x;                                             // a request of another connection
+        if (j < 0) { viol = "response-is-not-the-handlers-response" + std::string(t >= 0 ? " expected-for-" + rn(t) + "=[" + expect_response(t).substr(0, 70) + "]" : " (no request left to answer)") + " got=[" + whole.substr(0, 90) + "]" + (whole.size() > 90 ? "...(" + std::to_string(whole.size()) + " bytes)" : ""); for (auto &ch : viol) if (ch == '\r' || ch == '\n') ch = '|'; return; }
+        if (owner[j] != ci) { viol = "response-written-to-another-connection " + rn(j) + "-of-connection-" + std::to_string(owner[j]) + "-received-on-connection-" + std::to_string(ci); return; }
+        for (int x : k.tags) if (x == j) { viol = "response-written-twice " + rn(j); return; }
+        int jp = -1; for (size_t q = 0; q < k.reqs.size(); q++) if (k.reqs[q] == j) jp = (int)q;
+        if (c >= 0 && jp > c) { viol = "requests-after-connection-close-are-answered " + rn(j) + "-answered-after-closing-" + rn(k.reqs[c]); return; }
+        viol = "responses-out-of-request-order got-" + rn(j) + "-at-position-" + std::to_string(p); return;
+      }
+      if (c >= 0 && (int)p > c) { viol = "requests-after-connection-close-are-answered " + rn(t) + "-answered-after-closing-" + rn(k.reqs[c]); return; }
       k.tags.push_back(t);
     }
     k.parsed_to = pos;
@@ -304,15 +364,35 @@ struct World {
       Client &old = cl[cur[o.conn]]; close(old.fd); old.fd = -1; old.client_closed = true; reconns++;
       if (!connect_client(o.conn)) { viol = "harness-reconnect-failed errno=" + std::to_string(errno); return; }
       pass(); return; }
+    if (o.k == RESTART) {
+      restarts++;
+      if (o.kind == 0) { srv->stop(); if (!srv->start()) { viol = "harness-restart-failed (start after stop)"; return; } }
+      else { srv->cleanup(); if (!init_server()) { viol = "harness-restart-failed (initialize/start after cleanup) errno=" + std::to_string(errno); return; } }
+      // every client takes in what was written before the server went away (stream rules), sees its connection end, and connects again
+      for (int s = 0; s < g_nclients; s++) { int oc = cur[s]; client_read(oc); close(cl[oc].fd); cl[oc].fd = -1; cl[oc].client_closed = true;
+        if (!connect_client(s)) { viol = "harness-reconnect-failed errno=" + std::to_string(errno); return; } }
+      pass(); return; }
+    if (o.k == ENDC) {                          // the application shuts the server down while connections are open and handlers outstanding; the contexts are dropped afterwards
+      ended = true; srv->cleanup();
+      { std::vector<PendingNext> pn; pn.swap(pnext); for (auto &x : pn) x.next(); pn.clear(); }
+      { std::vector<Pending> ps; ps.swap(pending); completed += (int)ps.size(); ps.clear(); }
+      for (auto &k : cl) k.client_closed = true;      // what the clients got up to here obeys the stream rules; nothing more is owed to them
+      pass(); return; }
     int ci = cur[o.conn];
     if (o.k == RAW) { cl[ci].out += kRawText[o.kind]; flush_out(ci); cl[ci].malformed_sent = true; pass(); return; }
     int i = (int)kinds.size(); bool hostile = o.k == HCL; hcl.push_back(hostile ? o.kind : -1);
-    if (hostile) cl[ci].malformed_sent = true;
+    if (hostile && !hcl_wellformed(o.kind)) cl[ci].malformed_sent = true;      // a value the model reads as the plain decimal 5 makes an ordinary request: fully judged
+    rels.push_back(o.rel); rvs.push_back(o.rv);
     kinds.push_back(hostile ? KEEP : o.kind); delays.push_back(o.delay); sent.push_back(false); segs.push_back(o.seg); nds.push_back(o.nd); bigs.push_back(o.big); owner.push_back(ci);
     cl[ci].reqs.push_back(i);
     std::string t = hostile ? hcl_text(i, o.kind) : req_text(i, o.kind);
     if (verbose && hostile) printf("hostile request text: %s\n", t.c_str());
     if (o.seg == GLUED) { cl[ci].out += t; cl[ci].out_reqs.push_back(i); return; }
+    if (o.seg == ALONE && o.cclose) {           // request and end-of-stream reach the server in the same pass: it answers a peer that has already gone
+      cl[ci].out += t; cl[ci].out_reqs.push_back(i); flush_out(ci);
+      close(cl[ci].fd); cl[ci].fd = -1; cl[ci].client_closed = true; reconns++;
+      if (!connect_client(o.conn)) { viol = "harness-reconnect-failed errno=" + std::to_string(errno); return; }
+      pass(); return; }
     if (o.seg == ALONE) { cl[ci].out += t; cl[ci].out_reqs.push_back(i); flush_out(ci); pass(); return; }
     // CUT: everything glued so far + the first half in one segment, a pass, then the second half, a pass
     size_t half = o.seg == CUTM ? 2 : t.size() / 2;
@@ -325,32 +405,26 @@ struct World {
 
   std::string canon() {
     std::string c; char b[256];
-    Server::Impl *im = srv->impl_;
+    auto *im = srv->impl_;
     g_field_missing = false;
     snprintf(b, sizeof b, "conns=%ld tcp=%zu|", f_conns(im, 0), tcp_conns()); c += b;
     im->tcp_server_.d_->conns.foreach([&](network::TcpConnection *tc) {      // cabinet slot order
-      Server::Impl::Connection *cn = static_cast<Server::Impl::Connection *>(tc->getContext());
-      if (!cn) c += "conn=null ";
-      else {
-        bool idle = cn->req_parser.state() == RequestParser::State::kInit;
-        snprintf(b, sizeof b, "req=%ld res=%ld close=%ld ps=%d cl=%ld parked=", f_req_index(cn, 0), f_res_index(cn, 0), f_close_index(cn, 0), (int)cn->req_parser.state(), idle ? 0L : f_content_length(&cn->req_parser, 0)); c += b;
-        c += parked_keys(cn, 0);
-        if (g_field_missing) c += " raw=" + raw_scalars(cn);
-        c += " ";
-      }
+      void *ctx = tc->getContext();
+      if (!ctx) c += "conn=null "; else c += conn_fields(im, ctx, 0);
       network::BufferedFd *bf = tc->sp_buffered_fd_;
       if (!bf) { c += "bfd=null|"; return; }
       // send buffer: empty or not (how many bytes the kernel took in one write is the environment's business)
-      snprintf(b, sizeof b, "bfd st=%d rb=%zu sb=%d wev=%d|", (int)bf->state_, bf->recv_buff_.readableSize(), (int)(bf->send_buff_.readableSize() > 0), bf->sp_write_event_ ? (int)bf->sp_write_event_->isEnabled() : -1); c += b; });
-    CommonLoop *lp = static_cast<CommonLoop *>(loop);
-    snprintf(b, sizeof b, "next=%zu|", lp->run_next_func_queue_.size()); c += b;
-    c += "pend="; for (auto &p : pending) c += std::to_string(p.idx) + "@" + std::to_string(p.due - pass_no) + ",";
+      snprintf(b, sizeof b, "bfd st=%ld rb=%ld sb=%ld wev=%ld|", f_bfd_state(bf, 0), f_bfd_rb(bf, 0), f_bfd_sb(bf, 0), f_bfd_wev(bf, 0)); c += b; });
+    snprintf(b, sizeof b, "next=%ld|", f_next_queue(static_cast<CommonLoop *>(loop), 0)); c += b;
+    // outstanding handlers: when they are due and what they will write (size and flavour of the response are part of the model's future)
+    c += "pend="; for (auto &p : pending) c += std::to_string(p.idx) + "@" + std::to_string(p.due - pass_no) + (bigs[p.idx] ? "B" : "") + (rvs[p.idx] ? "v" + std::to_string(rvs[p.idx]) : "") + ",";
     c += "|pnext="; for (auto &p : pnext) c += std::to_string(p.idx) + "@" + std::to_string(p.due - pass_no) + "d" + std::to_string(delays[p.idx]) + ",";
+    snprintf(b, sizeof b, "|restarts=%d ended=%d", restarts, (int)ended); c += b;
     snprintf(b, sizeof b, "|issued=%zu delivered=%zu answering=%zu reconns=%d", kinds.size(), delivered.size(), finals.size(), reconns); c += b;
     for (int s = 0; s < g_nclients; s++) {
       Client &k = cl[cur[s]];
       c += "|c" + std::to_string(s) + " reqs="; for (int r : k.reqs) c += std::to_string(r) + ",";
-      c += " glued="; for (int r : k.out_reqs) c += std::string(kKindDef[kinds[r]].name) + std::to_string(delays[r]) + (nds[r] ? "n" + std::to_string(nds[r]) : "") + (bigs[r] ? "B" : "") + ",";
+      c += " glued="; for (int r : k.out_reqs) c += std::string(kKindDef[kinds[r]].name) + std::to_string(delays[r]) + (nds[r] ? "n" + std::to_string(nds[r]) : "") + (bigs[r] ? "B" : "") + (rels[r] ? "R" : "") + (rvs[r] ? "v" + std::to_string(rvs[r]) : "") + ",";
       snprintf(b, sizeof b, " closing=%d got=%zu partial=%d eof=%d wrfail=%d bad=%d", first_closing(k), k.tags.size(), (int)(k.rx.size() > k.parsed_to), (int)k.eof, (int)k.wr_failed, (int)k.malformed_sent); c += b;
     }
     return c;
@@ -400,11 +474,16 @@ static std::string show_op(const Op &o) {
   if (o.k == PASS) return "pass";
   if (o.k == RAW) return std::string("raw(") + kRaw[o.kind] + ")";
   if (o.k == RECONN) return "reconn(c" + std::to_string(o.conn) + ")";
+  if (o.k == RESTART) return o.kind ? "restart(cleanup-initialize)" : "restart(stop-start)";
+  if (o.k == ENDC) return "end(cleanup-with-live-connections)";
   if (o.k == HCL) return "hcl(v" + std::to_string(o.kind) + "," + kSeg[o.seg] + ")";      // value = kHcl[v], printed by the lane as @INFO and by replay
   char b[96]; int n = snprintf(b, sizeof b, "req(%s,d%d,%s", kKindDef[o.kind].name, o.delay, kSeg[o.seg]);
   if (o.conn) n += snprintf(b + n, sizeof b - n, ",c%d", o.conn);
   if (o.nd) n += snprintf(b + n, sizeof b - n, ",n%d", o.nd);
   if (o.big) n += snprintf(b + n, sizeof b - n, ",big");
+  if (o.rel) n += snprintf(b + n, sizeof b - n, ",rel");
+  if (o.cclose) n += snprintf(b + n, sizeof b - n, ",xclose");
+  if (o.rv) n += snprintf(b + n, sizeof b - n, ",v%d", o.rv);
   snprintf(b + n, sizeof b - n, ")"); return b;
 }
 static bool parse_hist(const std::string &s, std::vector<Op> &h) {
@@ -415,6 +494,9 @@ static bool parse_hist(const std::string &s, std::vector<Op> &h) {
     if (t == "pass") { h.push_back(Op{PASS, 0, 0, 0, 0, 0, 0}); continue; }
     if (t == "raw(bad-content-length)") { h.push_back(Op{RAW, BAD_CONTENT_LENGTH, 0, 0, 0, 0, 0}); continue; }
     if (t == "raw(bad-method)") { h.push_back(Op{RAW, BAD_METHOD, 0, 0, 0, 0, 0}); continue; }
+    if (t == "restart(stop-start)") { h.push_back(Op{RESTART, 0}); continue; }
+    if (t == "restart(cleanup-initialize)") { h.push_back(Op{RESTART, 1}); continue; }
+    if (t == "end(cleanup-with-live-connections)") { h.push_back(Op{ENDC, 0}); continue; }
     if (t.compare(0, 8, "reconn(c") == 0) { h.push_back(Op{RECONN, 0, 0, 0, atoi(t.c_str() + 8), 0, 0}); continue; }
     if (t.compare(0, 5, "hcl(v") == 0) { Op o{HCL, atoi(t.c_str() + 5), 0, t.find(",cut") != std::string::npos ? CUT : ALONE, 0, 0, 0}; if (o.kind < 0 || o.kind >= kNHcl) return false; h.push_back(o); continue; }
     if (t.compare(0, 4, "req(") != 0 || t.back() != ')') return false;
@@ -424,7 +506,7 @@ static bool parse_hist(const std::string &s, std::vector<Op> &h) {
     for (int i = 0; i < NKIND; i++) if (f[0] == kKindDef[i].name) o.kind = i;
     for (int i = 0; i < 4; i++) if (f[2] == kSeg[i]) o.seg = i;
     if (o.kind < 0 || o.seg < 0) return false;
-    for (size_t i = 3; i < f.size(); i++) { if (f[i] == "big") o.big = 1; else if (f[i][0] == 'c') o.conn = atoi(f[i].c_str() + 1); else if (f[i][0] == 'n') o.nd = atoi(f[i].c_str() + 1); else return false; }
+    for (size_t i = 3; i < f.size(); i++) { if (f[i] == "big") o.big = 1; else if (f[i] == "rel") o.rel = 1; else if (f[i] == "xclose") o.cclose = 1; else if (f[i][0] == 'v') o.rv = atoi(f[i].c_str() + 1); else if (f[i][0] == 'c') o.conn = atoi(f[i].c_str() + 1); else if (f[i][0] == 'n') o.nd = atoi(f[i].c_str() + 1); else return false; }
     h.push_back(o);
   }
   return true;
@@ -460,7 +542,12 @@ static std::string run_history(const std::vector<Op> &h, std::string &viol, bool
   return c;
 }
 
+// C12_GROUPING_LOCALE=1: the process-wide C++ locale groups digits by thousands (what std::locale::global(std::locale("en_US.UTF-8")) does in an application).
+// Default OFF: with it Respond::toString() (respond.cpp:37, `oss << body.length()`) writes "Content-Length: 12,006" for the big lane's responses - see the report.
+struct GroupingNumpunct : std::numpunct<char> { char do_thousands_sep() const override { return ','; } std::string do_grouping() const override { return "\3"; } };
 int main(int argc, char **argv) {
+  if (getenv("C12_GROUPING_LOCALE") && atoi(getenv("C12_GROUPING_LOCALE"))) { g_grouping_locale = true; std::locale::global(std::locale(std::locale::classic(), new GroupingNumpunct)); }
+  if (argc > 1 && !strcmp(argv[1], "counts")) { printf("nhcl=%d\n", kNHcl); return 0; }
   g_transport = argc > 1 ? argv[1] : "unix"; g_engine = argc > 2 ? argv[2] : "epoll";
   if (argc > 4 && !strcmp(argv[3], "replay")) {      // replay "<history>" [lane]
     if (argc > 5) set_lane(argv[5]);
@@ -475,6 +562,8 @@ int main(int argc, char **argv) {
   //        big      = responses that need several partial socket writes (server-side SO_SNDBUF minimal), mixed with small ones
   //        multi    = two connections at once + the client closing a connection (work outstanding or not) and reconnecting
   //        hcl      = a request with a hostile Content-Length value (after 0-2 valid requests, followed by a valid one): loop pass ends, handler not entered twice
+  //        resp     = response variants (headers, empty body, untouched 404 without a tag): the whole response is compared
+  //        life     = stop()/start(), cleanup()/initialize()/use()/start() and a final cleanup() with connections open and handlers outstanding
   //        mw       = two callbacks: the first defers next() by 0-2 passes, the second (a Middleware object) answers
   std::string lane = argc > 5 ? argv[5] : ""; set_lane(lane);
   hx::Explorer<Op> ex; ex.name = g_transport + "/" + g_engine; if (!lane.empty()) ex.name += "/" + lane;
@@ -490,11 +579,22 @@ int main(int argc, char **argv) {
   const Op PASSOP{PASS, 0, 0, 0, 0, 0, 0};
   ex.menu = [&](const std::vector<Op> &h) {
     std::vector<Op> m; int nreq = 0, nrec = 0; bool glued_open = false, bad = false, used1 = false;
-    for (auto &o : h) { if (o.k == HCL) { nreq++; glued_open = false; } if (o.k == REQ) { nreq++; glued_open = (o.seg == GLUED); if (o.conn == 1) used1 = true; } if (o.k == RAW) { bad = true; glued_open = false; } if (o.k == RECONN) nrec++; }
+    for (auto &o : h) { if (o.k == HCL) { nreq++; glued_open = false; } if (o.k == REQ) { nreq++; glued_open = (o.seg == GLUED); if (o.conn == 1) used1 = true; } if (o.k == RAW) { bad = true; glued_open = false; } if (o.k == RECONN || (o.k == REQ && o.cclose)) nrec++; }
     bool more = nreq < maxreq && !bad;
-    if (lane == "keeponly") { if (more) for (int seg : {GLUED, ALONE}) for (int d : {0, 1, 2, 3}) m.push_back(mkreq(KEEP, d, seg)); }      // delays 0-3: 4 requests can complete fully reversed
+    if (!h.empty() && h.back().k == ENDC) return m;      // terminal
+    if (lane == "keeponly") { if (more) { for (int seg : {GLUED, ALONE}) for (int d : {0, 1, 2, 3}) m.push_back(mkreq(KEEP, d, seg));
+                                          for (int seg : {GLUED, ALONE}) m.push_back(mkreq(KEEP, 0, seg, 0, 0, 0, 1)); } }      // rel: completes the earlier requests' contexts from inside its own handler
+    else if (lane == "resp") { if (more) { for (int kind : {KEEP, CLOSE}) for (int rv : {1, 2, 3}) for (int d : {0, 1}) m.push_back(mkreq(kind, d, ALONE, 0, 0, 0, 0, 0, rv));
+                                           for (int kind : {KEEP, CLOSE}) for (int rv : {1, 2, 3}) m.push_back(mkreq(kind, 0, GLUED, 0, 0, 0, 0, 0, rv)); } }
+    else if (lane == "life") {
+      int nrs = 0; for (auto &o : h) if (o.k == RESTART) nrs++;
+      if (more) for (int kind : {KEEP, CLOSE}) for (int d : {0, 1, 2}) m.push_back(mkreq(kind, d, ALONE));
+      if (nrs < 2 && nreq > 0) for (int v : {0, 1}) m.push_back(Op{RESTART, v});
+      if (nreq > 0) m.push_back(Op{ENDC, 0});
+    }      // delays 0-3: 4 requests can complete fully reversed
     else if (lane == "hdr") { if (more) for (int seg : {ALONE, GLUED}) for (int kind : {KEEP11H, KEEP10H, KEEP10TE, CLOSE11TE, CLOSE}) for (int d : {0, 1}) m.push_back(mkreq(kind, d, seg)); }
-    else if (lane == "big") { if (more) for (int seg : {ALONE, GLUED}) for (int kind : {KEEP, CLOSE}) for (int big : {1, 0}) for (int d : {0, 1}) m.push_back(mkreq(kind, d, seg, 0, 0, big)); }
+    else if (lane == "big") { if (more) for (int seg : {ALONE, GLUED}) for (int kind : {KEEP, CLOSE}) for (int big : {1, 0}) for (int d : {0, 1}) m.push_back(mkreq(kind, d, seg, 0, 0, big));
+                              if (nrec < 1 && nreq > 0 && !glued_open) m.push_back(Op{RECONN, 0, 0, 0, 0, 0, 0}); }      // the client goes away while the send buffer still holds (part of) a response
     else if (lane == "mw") { if (more) { for (int kind : {KEEP, CLOSE}) for (int nd : {0, 1, 2}) for (int d : {0, 1}) m.push_back(mkreq(kind, d, ALONE, 0, nd));
                                          for (int kind : {KEEP, CLOSE}) for (int nd : {0, 2}) m.push_back(mkreq(kind, 0, GLUED, 0, nd)); } }
     else if (lane == "hcl") {
@@ -504,7 +604,9 @@ int main(int argc, char **argv) {
     }
     else if (lane == "multi") {
       // client slot 1 sends only after slot 0 has sent (the two slots are interchangeable until then)
-      if (more) for (int conn : {0, 1}) { if (conn == 1 && nreq == 0) continue; for (int kind : {KEEP, CLOSE}) for (int d : {0, 1, 2}) m.push_back(mkreq(kind, d, ALONE, conn)); }
+      if (more) for (int conn : {0, 1}) { if (conn == 1 && nreq == 0) continue; for (int kind : {KEEP, CLOSE}) for (int d : {0, 1, 2}) m.push_back(mkreq(kind, d, ALONE, conn));
+        if (nreq > 0) m.push_back(mkreq(KEEP, 0, ALONE, conn, 0, 0, 1));                                   // rel: completes the contexts of BOTH connections from inside this request's handler
+        if (nrec < 2) for (int d : {0, 1}) m.push_back(mkreq(KEEP, d, ALONE, conn, 0, 0, 0, 1)); }          // xclose: request and close in one step
       if (nrec < 2 && nreq > 0) for (int conn : {0, 1}) { if (conn == 1 && !used1) continue; m.push_back(Op{RECONN, 0, 0, 0, conn, 0, 0}); }
     }
     else if (more) {
